@@ -102,7 +102,7 @@ func splitCSVLenient(b []byte) [][]string {
 }
 
 func runC04CLI(ctx *Ctx) {
-	s1, s2 := windowShapes(ctx.R)
+	s1, s2 := windowShapes(ctx.R, 0)
 	in := &c04CLIInput{S1: s1, S2: s2, New: hxRows(s1.Rows), Old: hxRows(s2.Rows)}
 	ctx.Emit("diff-cli", in, c04CLIRun(s1, s2), true, "cli", "mode=window-shapes")
 }
